@@ -138,7 +138,15 @@ def records(res, sem, ref_outs):
     begun = set()
     recorded = set()
     phase = 0
-    for e in res["events"]:
+    # "before the interruption": before the last effect of the mrp that was interrupted.  A job
+    # that outlives mrp for a moment (on a loaded machine it can finish between mrp's death and
+    # the signal its parent's death sends it) has not recorded its completion before the
+    # interruption, and nothing forbids running it again
+    evs_ = res["events"]
+    w1 = mrp_writer(evs_)
+    cut = next((i for i, e in enumerate(evs_) if e.get("ev") == "Interrupted"), len(evs_))
+    last_mrp = max([i for i, e in enumerate(evs_[:cut]) if e.get("w") == w1] or [cut])
+    for idx_, e in enumerate(res["events"]):
         ev = e.get("ev")
         if ev == "StageBegin":
             md2job[e["md"]] = e["job"]
@@ -153,6 +161,8 @@ def records(res, sem, ref_outs):
             rel = os.path.relpath(e["md"], os.path.join(os.path.dirname(e["md"].split("/ps/")[0] + "/ps/"), "")) \
                 if False else e["md"].split("/ps/", 1)[-1]
             j = md2job.get(rel)
+            if j and phase == 0 and idx_ > last_mrp and res.get("sig") == "SIGKILL":
+                continue        # (finished after mrp was gone)
             if j:
                 recorded.add(j)
                 out.append(psprops.rec(ev="StageEnd", job=j, outcome="ok"))
